@@ -32,7 +32,7 @@ use crate::be::{IdxKey, IdxKeyRef, IdxKeyToRef, IdxMeta, IdxSlope};
 use crate::idm::ldap::ldap_attr_filter_map;
 use crate::prelude::*;
 use crate::schema::SchemaTransaction;
-use crate::value::{IndexType, PartialValue};
+use crate::value::{IndexType, PartialValue, SyntaxType};
 
 pub type ResolveFilterCache =
     ARCache<(IdentityId, Arc<Filter<FilterValid>>), Arc<Filter<FilterValidResolved>>>;
@@ -1195,6 +1195,36 @@ impl FilterComp {
         })
     }
 
+    /// The ordering operators are expressed through LessThan, which only orders the
+    /// numeric and datetime syntaxes (every other syntax compares as "never less than"),
+    /// and which is satisfied by *any* value of the attribute. The not-less-than rewrites
+    /// of gt and ge are therefore only correct for single value attributes. Anything else
+    /// is unsupported, rather than silently answered with the wrong set of entries.
+    fn scim_ordering_supported(
+        attr: &Attribute,
+        qs: &mut QueryServerReadTransaction,
+    ) -> Result<(), OperationError> {
+        let schema = qs.get_schema();
+        let Some(schema_a) = schema.get_attributes().get(attr) else {
+            return Err(OperationError::InvalidAttributeName(attr.to_string()));
+        };
+
+        let orderable = matches!(
+            schema_a.syntax,
+            SyntaxType::Uint32 | SyntaxType::Uint64 | SyntaxType::Int64 | SyntaxType::DateTime
+        );
+
+        if orderable && !schema_a.multivalue {
+            Ok(())
+        } else {
+            error!(
+                ?attr,
+                "Unsupported filter operation - ordering on a multivalue or non-orderable attribute"
+            );
+            Err(OperationError::FilterGeneration)
+        }
+    }
+
     fn from_scim_ro(
         f: &ScimFilter,
         qs: &mut QueryServerReadTransaction,
@@ -1224,6 +1254,7 @@ impl FilterComp {
                 FilterComp::Enw(a.clone(), pv)
             }
             ScimFilter::Greater(ScimAttrPath { a, s: None }, json_value) => {
+                Self::scim_ordering_supported(a, qs)?;
                 let pv = qs.resolve_scim_json_get(a, json_value)?;
                 // Greater is equivalent to "not equal or less than".
                 FilterComp::And(vec![
@@ -1235,10 +1266,12 @@ impl FilterComp {
                 ])
             }
             ScimFilter::Less(ScimAttrPath { a, s: None }, json_value) => {
+                Self::scim_ordering_supported(a, qs)?;
                 let pv = qs.resolve_scim_json_get(a, json_value)?;
                 FilterComp::LessThan(a.clone(), pv)
             }
             ScimFilter::GreaterOrEqual(ScimAttrPath { a, s: None }, json_value) => {
+                Self::scim_ordering_supported(a, qs)?;
                 let pv = qs.resolve_scim_json_get(a, json_value)?;
                 // Greater or equal is equivalent to "not less than".
                 FilterComp::And(vec![
@@ -1247,6 +1280,7 @@ impl FilterComp {
                 ])
             }
             ScimFilter::LessOrEqual(ScimAttrPath { a, s: None }, json_value) => {
+                Self::scim_ordering_supported(a, qs)?;
                 let pv = qs.resolve_scim_json_get(a, json_value)?;
                 FilterComp::Or(vec![
                     FilterComp::LessThan(a.clone(), pv.clone()),
